@@ -963,11 +963,14 @@ class SCRun:
         elif sim.outcome == "itercap":
             self.v("C03.stuck", f"busy loop / iteration cap: {sim.error}", sig="C03.stuck:itercap")
             self.v("C05.busy", f"iteration cap: {sim.error}", sig="C05.busy:itercap")
+        elif sim.outcome == "exc":
+            raise sim.error
         else:
-            try:
-                self.post_checks()
-            except Exception as e:      # harness bug: surface as an error, never as a violation
-                raise
+            for l in leaves(self.root_exc):
+                if not isinstance(l, BOOMS + (CancelledError, TimeoutError)) and not (
+                        isinstance(l, RuntimeError) and "started" in str(l)):
+                    raise l         # an interpreter bug, not a property violation
+            self.post_checks()
         loop = sim.loop
         import hashlib
         h = hashlib.sha1()
